@@ -126,6 +126,10 @@ func checkCase(t stats.TB, part string, c *evmgen.Case, o *evmgen.Outcome) *repo
 		rp.fps = append(rp.fps, fp)
 		return stats.Violation(t, part, fp, msg, dump(c, o, extra))
 	}
+	if o.Broken != "" {
+		viol("C02/negative-balance/post-state-unhashable", "the post-state cannot be hashed: "+o.Broken, nil)
+		return rp
+	}
 	if res.Err != nil {
 		rp.label("tx-rejected")
 		rp.sig = []string{"rejected"}
